@@ -381,6 +381,26 @@ def build(spec: dict, **driver_kwargs):
     T = spec.get("T", 300.0)
     cycles = spec.get("cycles", 2)
     kw = dict(seed=seed, **driver_kwargs)
+    cache: dict = {}
+    prebuilt: dict = {}
+    if spec.get("ctor_defaults") and d in ("Canonical", "Isobaric", "Isotension", "GrandCanonical"):
+        # hand the first eligible plain moves of the table to the driver's constructor (the documented
+        # default_displacement_move / default_cell_move / default_exchange_move parameters): they are then registered
+        # under the drivers' own default names, with the default criteria, before every other entry
+        slots = {"D": "default_displacement_move"}
+        if d in ("Isobaric", "Isotension"):
+            slots["C"] = "default_cell_move"
+        if d == "GrandCanonical":
+            slots["E"] = "default_exchange_move"
+        taken = set()
+        for e in spec.get("table", []):
+            t = e["move"].get("t")
+            if t in slots and t not in taken:
+                taken.add(t)
+                mv = build_move(e["move"], labels, cache)
+                kw[slots[t]] = mv
+                e["name"] = slots[t]
+                prebuilt[slots[t]] = mv
     if d == "MonteCarlo":
         mc = MonteCarlo(atoms, max_cycles=cycles, **kw)
     elif d == "Canonical":
@@ -404,9 +424,19 @@ def build(spec: dict, **driver_kwargs):
     if spec.get("accessible_volume_fraction") is not None:
         # a porous host: only part of the cell is accessible to the exchanged species (documented setting)
         mc.accessible_volume = float(spec["accessible_volume_fraction"]) * float(atoms.cell.volume)
-    cache: dict = {}
     info = {"labels": labels, "moves": {}, "criteria": {}}
     for e in spec.get("table", []):
+        if e["name"] in prebuilt:
+            # the rest of the entry through the move table's documented attributes
+            st_ = mc.moves[e["name"]]
+            st_.probability = e.get("probability", 1.0)
+            st_.interval = e.get("interval", 1)
+            st_.minimum_count = e.get("min", 0)
+            if e.get("criteria"):
+                st_.criteria = make_criteria(e["criteria"], derive_seed(spec.get("seed", 0), e["name"]) % 1000)
+            info["moves"][e["name"]] = prebuilt[e["name"]]
+            info["criteria"][e["name"]] = mc.moves[e["name"]].criteria
+            continue
         mv = build_move(e["move"], labels, cache)
         crit = None
         if e.get("criteria"):
